@@ -49,6 +49,14 @@ def cases(tier, seed):
             for agg in ("all", "pc", "cf_pc"):
                 for pct, votes in ((100, "large"), (0, "small")):
                     out.append({"setup": setup, "office": "G", "loc": loc, "pct": pct, "votes": votes, "agg": agg, "base": "complete", "seed": seed})
+    # the feed does not carry every baseline unit (policy 'zero' counts the absent ones as units without votes) - as many
+    # rows missing as extra, e.g. a renamed precinct
+    for setup in ("np2", "ga1", "bs1"):
+        for loc in LOCS:
+            for agg in ("all", "pc_cf"):
+                for pct, votes in ((100, "large"), (50, "small")):
+                    for nmiss in (1, 2):
+                        out.append({"setup": setup, "office": "G", "loc": loc, "pct": pct, "votes": votes, "agg": agg, "base": "missing", "n_missing": nmiss, "seed": seed})
     # the caller keeps its feed DataFrame between two polls and appends the new row to it
     for setup in ("np2", "ga1", "bs1"):
         for loc in ("known", "newcounty", "emptystate"):
@@ -102,7 +110,7 @@ def evaluate(case):
     V = []
     setup = case["setup"]
     office = case["office"]
-    cfg = S.cfg_for(setup, case["agg"], "drop", 100, office=office)
+    cfg = S.cfg_for(setup, case["agg"], "zero" if case["base"] == "missing" else "drop", 100, office=office)
     pm = cfg["pi_method"]
     w = "twoparty" if pm == "bootstrap" else "turnout"
 
@@ -118,6 +126,9 @@ def evaluate(case):
             u["district"] = "1"
             u["id"] = f"1_{u['county']}_a{i}"
         cov["at_large_state_pairs"] += 1
+    if case["base"] == "missing":
+        base_units += [E.make_probe(case["seed"], 0, "nonrep_partial", "pop0", office, weights=w)] + [E.make_probe(case["seed"], 1 + k, "missing", ["pop1", "pop0"][k], office, weights=w) for k in range(case["n_missing"])]
+        cov["pairs_with_baseline_units_missing_from_the_feed"] += 1
     if case["base"] == "probes":
         base_units += [E.make_probe(case["seed"], 0, "nonrep_partial", "pop0", office, weights=w), E.make_probe(case["seed"], 1, "zero_baseline", "pop1", office, weights=w), E.make_probe(case["seed"], 2, "unexpected", "newcounty", office, weights=w)]
     d, g, t = VOTES[case["votes"]]
